@@ -871,6 +871,9 @@ pub enum CutOutcome {
     /// reopen succeeded with a state that is no prefix state
     NotAPrefix(String),
     Panic(String),
+    /// reopen gave the state after this many edits, but an edit applied to the reopened manifest
+    /// and a further reopen did not give that state plus the edit
+    FollowUp(usize, String),
 }
 
 /// Copy the pristine directory, cut MANIFEST to `cut` bytes, reopen.
@@ -884,17 +887,38 @@ pub fn cut_and_reopen(scratch: &Scratch, p: &Pristine, ratio: u64, cut: usize) -
         .expect("open MANIFEST for truncation");
     f.set_len(cut as u64).expect("truncate");
     drop(f);
+    // reopen; then go on using the manifest: one more edit, close, reopen (the torn tail must not
+    // leak into, or damage, what is recorded afterwards)
     let r = vcore::catch(|| match Manifest::open(options(ratio, false), &work) {
-        Ok(m) => Ok(observe(&m)),
+        Ok(mut m) => {
+            let obs = observe(&m);
+            let mut e = Edit::default();
+            let follow: Result<Model, String> = (|| {
+                e.add("after-cut").map_err(|e| format!("building the follow-up edit: {e}"))?;
+                m.apply(e).map_err(|e| format!("the follow-up edit failed: {e}"))?;
+                let live = observe(&m);
+                drop(m);
+                let m2 = Manifest::open(options(ratio, false), &work).map_err(|e| format!("reopening after the follow-up edit failed: {e}"))?;
+                let again = observe(&m2);
+                if again != live {
+                    return Err(format!("after the follow-up edit the manifest held {} but reopening gives {}", live.show(), again.show()));
+                }
+                Ok(again)
+            })();
+            Ok((obs, follow))
+        }
         Err(e) => Err(short(mani::error_code(&e), &e)),
     });
     match r {
         Err(p) => CutOutcome::Panic(p),
         Ok(Err((code, _text))) => CutOutcome::Error(code),
-        Ok(Ok(obs)) => {
+        Ok(Ok((obs, follow))) => {
             // the longest matching prefix (states may repeat)
             match p.prefix_states.iter().rposition(|s| *s == obs) {
-                Some(i) => CutOutcome::Prefix(i),
+                Some(i) => match follow {
+                    Ok(_) => CutOutcome::Prefix(i),
+                    Err(e) => CutOutcome::FollowUp(i, e),
+                },
                 None => CutOutcome::NotAPrefix(obs.show()),
             }
         }
